@@ -6,6 +6,7 @@ pub fn handle_ext2(kind: &str, req: &Value) -> Result<Value, String> {
     "loop" => crate::remapping_loop::verif_replay::run_loop_script(req),
     "service_text" => crate::udev_utils::verif_replay::service_text(req),
     "escape_char" => crate::udev_utils::verif_replay::escape_char(req),
+    "kbd_select" => crate::remapping_loop::verif_select::kbd_select(req),
     "uinput_write" => crate::dev_input_rw::verif_replay::uinput_write(req),
     "uinput_read" => crate::dev_input_rw::verif_replay::uinput_read(req),
     _ => Err(format!("unknown request kind {}", kind)),
